@@ -525,7 +525,10 @@ def run_check(plugin, tier: str, seed: int, replay: str | None = None) -> int:
                     if msg:
                         try:
                             cov = orc.covered(a, msg)
-                        except Exception:  # noqa: BLE001
+                        except Exception as e:  # noqa: BLE001
+                            # a crashing coverage predicate excuses nothing (the failure is reported), but say so:
+                            # on the unchanged tree this is a defect of the plug-in, not of the library
+                            log(f"[sweep] coverage predicate of oracle {orc.name} crashed ({type(e).__name__}: {e}); the failure is treated as not covered")
                             cov = None
                         if not cov:
                             sweep_found = {"oracle": orc.name, "args": a, "message": msg}
